@@ -10,7 +10,7 @@
    has none, and every use below has timeBase as one operand, so the
    `t.wall & u.wall & hasMonotonic != 0` branches of Sub/Equal are dead and Add
    on timeBase never touches one.  Pure Z arithmetic; no axioms. *)
-From Coq Require Import ZArith Bool.
+From Coq Require Import ZArith Bool String.
 Local Open Scope Z_scope.
 
 Record gotime := mk_time { t_sec : Z; t_nsec : Z; t_zone : option Z }.
@@ -31,6 +31,26 @@ Definition base_abs : Z := 62766662400.
 
 (* var timeBase = time.Date(1989, time.December, 31, 0, 0, 0, 0, time.UTC) *)
 Definition time_base : gotime := mk_time 0 0 None.
+
+(* days from 1970-01-01 of a proleptic Gregorian date (year >= 1) *)
+Definition days_from_civil (y m d : Z) : Z :=
+  let y' := if m <=? 2 then y - 1 else y in
+  let era := y' / 400 in
+  let yoe := y' - era * 400 in
+  let doy := (153 * (if 2 <? m then m - 3 else m + 9) + 2) / 5 + d - 1 in
+  let doe := yoe * 365 + yoe / 4 - yoe / 100 + doy in
+  era * 146097 + doe - 719468.
+
+Example days_from_civil_examples :
+  days_from_civil 1970 1 1 = 0 /\ days_from_civil 2000 3 1 = 11017 /\ days_from_civil 1 1 1 = -719162.
+Proof. repeat split; reflexivity. Qed.
+
+(* time.Date(y, m, d, h, mi, s, ns, loc) for in-range arguments (month 1..12, day within the month, ...; no
+   normalisation is modelled) in time.UTC -- any other location is mapped to a fixed zone 0 that no theorem uses;
+   vocabulary of the translated source, Gen/C17Funcs.v *)
+Definition go_time_date (y m d h mi s ns : Z) (loc : string) : gotime :=
+  mk_time ((days_from_civil y m d - days_from_civil 1 1 1) * 86400 + h * 3600 + mi * 60 + s - base_abs) ns
+          (if String.eqb loc "UTC" then None else Some 0).
 
 (* func (t *Time) addSec(d int64), wall-only branch, on the int64 count from
    year 1: saturates instead of wrapping *)
